@@ -60,6 +60,10 @@ func (cl Serializer) DecodeDnsResponseWithParams(msg *dns.Msg, downstream enc.En
 	}
 	for _, c := range Commands {
 		if c.IsOfType(data) {
+			if c.NewResponse == nil {
+				// Reserved command (login, multi-query): there is no response to decode
+				break
+			}
 			req := c.NewResponse()
 			err := req.Decode(downstream, data)
 			return req, err
